@@ -41,11 +41,11 @@ def gen_graph(rng, wide=False):
     shape = rng.choice(["chain", "diamond", "shared", "dag", "dag", "dag2", "cyclic", "cyclic", "namecycle", "tiny"])
     n = rng.randint(2, 4) if shape == "tiny" else rng.randint(4, 8 if wide else 7)
     names = ["p%d" % i for i in range(n)] if rng.random() < 0.5 else list("abcdefgh")[:n]
-    two = {"dag2": 0.6, "namecycle": 0.7}.get(shape, 0.25)          # share of names with two versions
+    two = {"dag2": 0.7, "namecycle": 0.7}.get(shape, 0.3)          # share of names with two versions
     p_unres = 0.12 if rng.random() < 0.5 else 0.0
     p_uns = 0.15 if rng.random() < 0.12 else 0.0
     p_j = 0.15 if rng.random() < 0.2 else 0.0
-    p_expl = rng.choice([0.0, 0.2, 0.5])
+    p_expl = rng.choice([0.0, 0.3, 0.6])
     versions = {}
     for m in names:
         versions[m] = rng.sample(["1", "2"], 2) if rng.random() < two else [rng.choice(["1", "2", "1.0"])]
@@ -70,7 +70,7 @@ def gen_graph(rng, wide=False):
                     p = 0.4 if jx > i else (0.15 if jx < i else 0.05)
                 if rng.random() < p:
                     if rng.random() < p_expl:
-                        ver = rng.choice(versions[t] + ["1", "2", "9"])
+                        ver = rng.choice(versions[t]) if rng.random() < 0.75 else rng.choice(["1", "2", "9"])
                     else:
                         ver = None
                     deps.append({"k": "opt" if rng.random() < 0.25 else "req", "n": t, "v": ver, "j": rng.random() < p_j})
@@ -154,7 +154,7 @@ class Resolved:
         return r
 
 
-def oracle_listing(R, root, mode, out):
+def oracle_listing(R, root, mode, out, stats=None):
     """Yields (clause, finding, detail) for the clauses of C13 the implementation's listing breaks."""
     rootn = (root[0], root[1], True)
     listed, expanded = R.closure(rootn)
@@ -168,6 +168,11 @@ def oracle_listing(R, root, mode, out):
     for a in nodes:
         names.setdefault(a[0], set()).add(a)
     twover = any(len(s) > 1 for s in names.values())
+    if stats is not None:
+        for flag, name in ((twover, "twoversions"), (cyclic, "cyclic"), (unsetup, "unsetup"), (any(not a[2] for a in nodes), "unresolved"),
+                           (any(sum(1 for a in s if a[2]) > 1 for s in names.values()), "two_declared_versions")):
+            if flag:
+                stats("closure:" + name)
     if isinstance(out, str):
         if out == "Cycle":
             if not cc and not unsetup:
@@ -193,6 +198,16 @@ def oracle_listing(R, root, mode, out):
         depth = {}
         for e in out:
             depth[(e[0], e[1], e[2])] = e[4]
+        # required wins: a product is optional only if every line that lists it (in a table of the closure) is optional
+        allopt = {}
+        for u in expanded:
+            for t, _, o in R.succ.get(u, []):
+                allopt[t] = allopt.get(t, True) and o
+        for e in out:
+            k = (e[0], e[1], e[2])
+            if k in allopt and e[3] != allopt[k]:
+                yield ("required_wins", None, "%s listed optional=%s" % (k, e[3]))
+                break
         for u in expanded:
             if u == rootn or u not in depth:
                 continue
@@ -213,14 +228,18 @@ def oracle_users(R, graph, query, out, reach_cache):
         node = (key[0], key[1], True)
         if node not in reach_cache:
             listed, expanded = R.closure(node)
-            reach_cache[node] = (listed - {node}, any(R.has_unsetup.get(u) for u in expanded))
-        listed, uns = reach_cache[node]
+            allopt = {}
+            for u in expanded:
+                for t, _, o in R.succ.get(u, []):
+                    allopt[t] = allopt.get(t, True) and o
+            reach_cache[node] = (listed - {node}, any(R.has_unsetup.get(u) for u in expanded), allopt)
+        listed, uns, allopt = reach_cache[node]
         if uns:
             return
         for t in listed:
             if t[0] == n and (v is None or t[1] == v):
-                want.add((key[0], key[1], t[1]))
-    got = [(u[0], u[1], u[2]) for u in out]
+                want.add((key[0], key[1], t[1], allopt[t]))
+    got = [(u[0], u[1], u[2], u[3]) for u in out]
     if set(got) != want:
         yield ("uses_inverse", None, "missing %s, extra %s" % (sorted(want - set(got), key=repr), sorted(set(got) - want, key=repr)))
     elif len(got) != len(set(got)):
@@ -358,7 +377,7 @@ def evaluate(ctx, graphs, ncli=2, corpus=False):
                 ctx.hist("listing:%s" % (out if isinstance(out, str) else "ok"))
                 if out != mo:
                     ctx.disagree("listing", inp, out, mo)
-                for clause, fid, detail in oracle_listing(R, r, mode, out):
+                for clause, fid, detail in oracle_listing(R, r, mode, out, ctx.hist if mi == 0 else None):
                     ctx.fail(clause, inp, out, mo, note=detail, finding=fid)
         if queries:
             ctx.hist("uses:%s" % io_["uses"])
@@ -529,7 +548,7 @@ def run(ctx):
         raise common.InfraError("degenerate distribution: %d non-trivial of %d" % (ctx.distinct_nontrivial, ctx.evaluations))
     h = ctx.histogram
     if not ctx.escalated and n >= 100:
-        for need in ("listing:Cycle", "users:some", "shape=cyclic"):
+        for need in ("closure:cyclic", "closure:two_declared_versions", "closure:unresolved", "shape=cyclic"):
             if not h.get(need):
                 raise common.InfraError("degenerate distribution: no case with %s" % need)
 
